@@ -113,7 +113,11 @@ func (w *world) Run(t *rt.Tape, trace bool) *core.Result {
 	}
 	if circ == nil {
 		src = ""
-		circ = gen.Circuit(t, gen.CircuitOpts{Parties: n, GMW: true, MaxIn: 12, MaxGates: 300, ANDHeavy: t.Choose(rt.SGen, 2) == 0})
+		mg := 300
+		if w.tier == "thorough" {
+			mg = 900
+		}
+		circ = gen.Circuit(t, gen.CircuitOpts{Parties: n, GMW: true, MaxIn: 12, MaxGates: mg, ANDHeavy: t.Choose(rt.SGen, 2) == 0})
 		circ.AssignLevels(utils.TargetGMW)
 	}
 	if len(circ.Inputs) != n {
@@ -179,6 +183,7 @@ func (w *world) Run(t *rt.Tape, trace bool) *core.Result {
 				}
 				rt.Sleep(connDelay[p.id])
 				p.connectErr = p.nw.Connect([]int{int(circ.Inputs[p.id].Type.Bits)})
+				rt.Tracef("HARNESS party %d: Connect returned err=%v", p.id, p.connectErr)
 				if p.connectErr != nil {
 					return
 				}
@@ -188,6 +193,7 @@ func (w *world) Run(t *rt.Tape, trace bool) *core.Result {
 				}
 				rt.Sleep(runDelay[p.id])
 				p.out, p.runErr = p.nw.Run(in[p.id], circ, false)
+				rt.Tracef("HARNESS party %d: Run returned %s err=%v", p.id, gen.FmtInts(p.out), p.runErr)
 				p.closeErr = p.nw.Close()
 			})
 		}
